@@ -204,7 +204,23 @@ func genC17(seed int64, tier string) *Scenario {
 	switch mode {
 	case "filter", "channel":
 		c := randC17Config(r, false)
+		if r.Intn(3) == 0 && len(c.IgnHandle) == 0 {
+			c.IgnHandle = append(c.IgnHandle, []string{"lib/", "src/syn.lua", "lib/misc.lua", "src/un.*lua", "ok.lua"}[r.Intn(5)])
+		}
 		sc.Knobs["config"] = c
+		if r.Intn(2) == 0 {
+			// after start-up the world changes two files and the watcher reports them in one batch:
+			// one that the configuration excludes from analysis (if any) and one that it does not
+			ignored := map[string]string{"lib/": "lib/misc.lua", "src/syn.lua": "src/syn.lua", "lib/misc.lua": "lib/misc.lua", "src/un.*lua": "src/undef.lua", "ok.lua": "ok.lua"}
+			b := map[string]interface{}{"normal": []string{"src/use.lua", "src/arity.lua", "lib/def.lua"}[r.Intn(3)], "order": r.Intn(2),
+				"data": []string{"print(brandnewglobal)\nlocal unusedx = 1\n", "crossvar = 3\nfunction crossfn(a, b, c) return a end\nlocal t = {q = 1, q = 2}\n"}[r.Intn(2)]}
+			if len(c.IgnHandle) > 0 {
+				b["ignored"] = ignored[c.IgnHandle[0]]
+			} else {
+				b["ignored"] = "ok.lua"
+			}
+			sc.Knobs["batch"] = b
+		}
 	case "history":
 		n := 2 + r.Intn(4)
 		var cs []C17Config
@@ -376,6 +392,55 @@ func checkC17(t *testing.T, sc *Scenario) *Verdict {
 		}
 		if vv := cmp("c17-not-a-filter", "client-settings", a.View, filterView(base.View, c), extra+specialGate(c)); vv != nil {
 			return vv
+		}
+		if bm, ok := sc.Knobs["batch"].(map[string]interface{}); ok {
+			normal, _ := bm["normal"].(string)
+			ign, _ := bm["ignored"].(string)
+			data, _ := bm["data"].(string)
+			order := fmt.Sprint(bm["order"]) == "1"
+			w1 := Op{Kind: "fswrite", Path: ign, Data: Bytes("local touched_by_world = 1\nprint(touched_by_world)\n")}
+			w2 := Op{Kind: "fswrite", Path: normal, Data: Bytes(data)}
+			ops := []Op{w1, w2}
+			if order {
+				ops = []Op{w2, w1}
+			}
+			ops = append(ops, Op{Kind: "deliver"})
+			hb := run(&Scenario{Files: sc.Files, InitOpts: c.initOpts(), Ops: ops})
+			if hb.Outcome != OutOK {
+				return fail(hb, "batch-events")
+			}
+			var final []File
+			for _, f := range sc.Files {
+				switch f.Path {
+				case ign:
+					final = append(final, File{Path: f.Path, Data: w1.Data})
+				case normal:
+					final = append(final, File{Path: f.Path, Data: w2.Data})
+				default:
+					final = append(final, f)
+				}
+			}
+			has := func(p string) bool {
+				for _, f := range final {
+					if f.Path == p {
+						return true
+					}
+				}
+				return false
+			}
+			if !has(ign) {
+				final = append(final, File{Path: ign, Data: w1.Data})
+			}
+			if !has(normal) {
+				final = append(final, File{Path: normal, Data: w2.Data})
+			}
+			fb := run(&Scenario{Files: final, InitOpts: c.initOpts()})
+			if fb.Outcome != OutOK {
+				return fail(fb, "batch-events fresh")
+			}
+			if vv := cmp("c17-history-differs-from-fresh", "watched-files batch under the configuration", hb.View, fb.View, extra); vv != nil {
+				return vv
+			}
 		}
 		v.Shape = fmt.Sprintf("%s %v %v %v view=%x", mode, c.Off, c.IgnErr, c.IgnHandle, hashString(a.ViewString()))
 		v.NonTrivial = len(base.View) > 0
